@@ -9,6 +9,7 @@ pub mod c05;
 pub mod c06;
 pub mod c07;
 pub mod c08;
+pub mod c09;
 pub mod c10;
 pub mod c11;
 pub mod c12;
@@ -32,6 +33,7 @@ pub fn run(a: &Args) -> Report {
         "c10" => c10::run(a),
         "c07" => c07::run(a),
         "c08" => c08::run(a),
+        "c09" => c09::run(a),
         "c06" => c06::run(a),
         "c04" => c04::run(a),
         "c05" => c05::run(a),
